@@ -343,13 +343,19 @@ def _k3(run: Run, w: World) -> None:
         ("sequence against one dimension", [q1, sym, 7], D["C"]), ("sequence against a tuple", [q1, q2, sbl], [D["M"], sym, D["P"]]), ("empty sequence", [], D["L"]),
         ("vector", vfull, D["M"]), ("vector with some zero components", vmixed, D["C"]), ("zero vector", vzero, D["L"]), ("infinite/NaN vector", vinf, D["L"]),
         ("unit-less non-zero vector", vunitless, D["L"]), ("sequence of vectors", [vmixed, vzero, vfull], D["T"]), ("vector against a symbol", vfull, sym),
+        # a vector whose own dimension is angle (every component an angle) is a vector like any other: non-zero components are checked
+        ("angle-dimension vector", qvector("g", Dim.of(angle=1), ["finite", "finite", "finite"]), D["L"]),
+        ("angle-dimension vector with a zero", qvector("h", Dim.of(angle=1), ["zero", "finite"]), D["L"]),
         # elements that agree in dimension are still checked one by one (a zero matches anything and vouches for nothing), within a call and across calls
         ("sequence with a zero before quantities of its dimension", [q0, q1, q1b, 0, 3, 3], D["M"]),
         ("quantity after a call with a zero of its dimension", q1, D["M"], q0), ("sequence after a call with the same sequence", [q1, q2], D["C"], [q1, q2]),
     ]
+    vm_ = run.src.need("symplyphysics.core.vectors.vectors")
+    extern = {c_.name: c_ for c_ in vm_.tree.body if isinstance(c_, ast.ClassDef) and c_.name == "QuantityVector"}
     for label, value, expected, *warmup in cases:
         run.ob("K3", label)
         R = GateReader(m.tree, "quantity_decorator.py")
+        R.extern_classes = extern
         try:
             if warmup:
                 R.call("_assert_expected_unit", [warmup[0], expected, "PARAM", "FUNC"])
